@@ -51,7 +51,7 @@ VIOLATION_KINDS = [
     ('constructed value may fail to meet its declared type invariant', 'type-invariant'),
     ('might not be allowed at this program point', 'assertion'),
 ]
-INCONCLUSIVE_PATTERNS = ['rlimit', 'Resource limit', 'timed out', 'not supported', 'unsupported',
+INCONCLUSIVE_PATTERNS = ['rlimit', 'Resource limit', 'timed out', 'not supported', 'unsupported', 'does not yet support',
                          'does not support', 'not yet supported', 'unimplemented']
 
 
@@ -263,6 +263,16 @@ def load_known():
 
 
 def tags_of_failure(f, meta, safety_tags):
+    if not f['clause'] and f['kind'] == 'assertion':
+        # an assertion of a proof block that carries no clause marker: it serves the clauses of its function
+        t = []
+        for c in meta['clauses'].values():
+            if ann.scope_of(c['where']) == f['fn']:
+                t += [x for x in c['tags'] if x not in t]
+        if t:
+            return t
+    if f['clause'] and f['clause'].startswith('ASSUME.') and f['kind'] == 'precondition':
+        return list(safety_tags)   # the precondition of a std function (a panic condition) is a safety obligation of the caller
     if f['clause'] and f['clause'] in meta['clauses']:
         t = list(meta['clauses'][f['clause']]['tags'])
         if f['kind'] in ('overflow', 'bounds', 'unreachable', 'termination', 'divzero', 'panic'):
@@ -413,7 +423,9 @@ def _run(pid, P, tier, seed, scratch, t0):
     kept = []
     for f in failures:
         why = None
-        if f['fn'] in lost_local:
+        if f.get('clause') in ('ASSUME.string_truncate',):
+            why = 'the precondition of this std function (a UTF-8 boundary) cannot be decided from the character view of strings'
+        elif f['fn'] in lost_local:
             why = 'a proof hint / normalisation of this function was lost: ' + lost_local[f['fn']][0][:160]
         elif f['fn'] in calls_unc:
             why = 'calls %s, which is new and has no contract' % ', '.join(calls_unc[f['fn']])
@@ -488,7 +500,19 @@ def _run(pid, P, tier, seed, scratch, t0):
     for c in clauses:
         q = ann.scope_of(c['where'])
         if q in undecided_fns:
-            inconclusive.append(dict(message='UNDECIDED clause %s: `%s` %s' % (c['id'], q, undecided_fns[q]), rendered='', cfg=''))
+            # the verifier cannot decide this clause this run; a concrete failing input still settles it
+            pf = dict(id='%s|undecided|%s' % (q, c['id']), fn=q, kind='undecided', clause=c['id'], cfg=runs[0]['cfg'],
+                      message='clause %s could not be decided (%s) and a concrete input violates it' % (c['id'], undecided_fns[q]),
+                      rendered='', repo_file=None, repo_line=None, expr='')
+            try:
+                import witness
+                witness.find(pid, pf, REPO, scratch)
+            except Exception as ex_:
+                pf['witness_error'] = str(ex_)
+            if pf.get('replayed'):
+                rel_fail.append(pf)
+            else:
+                inconclusive.append(dict(message='UNDECIDED clause %s: `%s` %s' % (c['id'], q, undecided_fns[q]), rendered='', cfg=''))
     if pid in SAFETY_PROPS:
         for q in undecided_fns:
             inconclusive.append(dict(message='UNDECIDED safety of `%s`: %s' % (q, undecided_fns[q]), rendered='', cfg=''))
